@@ -10,7 +10,7 @@ use crate::exch::{ExchCfg, Gate, Menu};
 use crate::exch_run::{replay_exchange, run_exchanges};
 use crate::gen::*;
 
-pub const RULE: &str = "exchanges = request menu (method, version, framing none/Content-Length/default chunked/explicit chunked, Expect, Connection: close, despite-method) x server menu (optional interim 100 / silent server / refusal, final status {200,204,304,404,301,302,307,403}, version, body none/CL 0/CL n/chunked 1-2 chunks with extension and trailers/close-delimited, Connection: close, trailing bytes of a next response; a non-3xx with Location; both framing headers; a 40-field head; empty-valued fields ahead of Connection / Location; chunk-size lines of exactly 20 bytes; size, last-chunk and trailer lines of every length 1..=16 with the stream ending right after the body or one byte later) x boundary stopping {off,on}, plus 25 000-byte request bodies with several chunks per write, and two requests obtained by following a redirect (dropped headers between kept ones); per exchange the COMPLETE graph of states (full flow fingerprint, consumed, arrived, body cursor, observations) under: head write with every buffer size 0..=|head|+1, body writes with inputs {1,2,rest} x buffers {0,1,5,6,7,8,11,12,large} and direct-write reports, 1-byte arrivals (every window the caller can ever present), try_read_100 / give-up / try_response / read with buffers {0,1,2,3,4,large} at every window, proceed whenever ready; queries and readiness-vs-proceed checked in every state; every final state must show the same observation and the reference verdict; every state must be able to reach the end; plus interleaving: for all 49 ordered pairs of seven exchanges, two flows driven alternately on one thread along a fine-grained schedule - every (i, j): first flow i steps, second j steps, first to its end, second to its end - under the same oracles (no state shared between objects). distinct = distinct (exchange, final observation) pairs";
+pub const RULE: &str = "exchanges = request menu (method, version, framing none/Content-Length/default chunked/explicit chunked, Expect, Connection: close, despite-method) x server menu (optional interim 100 / silent server / refusal, final status {200,204,304,404,301,302,307,403}, version, body none/CL 0/CL n/chunked 1-2 chunks with extension and trailers/close-delimited, Connection: close, trailing bytes of a next response; a non-3xx with Location; both framing headers; Transfer-Encoding spelled 'gzip, chunked' (404 answers); a 40-field head; empty-valued fields ahead of Connection / Location; chunk-size lines of exactly 20 bytes; size, last-chunk and trailer lines of every length 1..=16 with the stream ending right after the body or one byte later) x boundary stopping {off,on}, plus 25 000-byte request bodies with several chunks per write, and two requests obtained by following a redirect (dropped headers between kept ones); per exchange the COMPLETE graph of states (full flow fingerprint, consumed, arrived, body cursor, observations) under: head write with every buffer size 0..=|head|+1, body writes with inputs {1,2,rest} x buffers {0,1,5,6,7,8,11,12,large} and direct-write reports, 1-byte arrivals (every window the caller can ever present), try_read_100 / give-up / try_response / read with buffers {0,1,2,3,4,large} at every window, proceed whenever ready; queries and readiness-vs-proceed checked in every state; every final state must show the same observation and the reference verdict; every state must be able to reach the end; plus interleaving: for all 49 ordered pairs of seven exchanges, two flows driven alternately on one thread along a fine-grained schedule - every (i, j): first flow i steps, second j steps, first to its end, second to its end - under the same oracles (no state shared between objects). distinct = distinct (exchange, final observation) pairs";
 
 const MANY_FIELDS: [(&str, &str); 40] = [
     ("X-Info-0", "a"), ("X-Info-1", "b"), ("X-Info-2", "c"), ("X-Info-3", "d"), ("X-Info-4", "e"), ("X-Info-5", "f"), ("X-Info-6", "g"), ("X-Info-7", "h"),
@@ -145,7 +145,13 @@ pub fn build(tier: Tier) -> Vec<Arc<ExchCfg>> {
     for r in &reqs {
         let expect = r.cfg.expects_100() && r.cfg.body_due();
         for (status, ver, extra, body) in finals(tier) {
-            let fm = final_msg(&r.cfg.method, ver, status, &extra, &body);
+            let mut fm = final_msg(&r.cfg.method, ver, status, &extra, &body);
+            if status == 404 {
+                // the coding list spelled with another coding in front and optional white space after the comma
+                for f in fm.fields.iter_mut().filter(|f| f.0.eq_ignore_ascii_case("transfer-encoding")) {
+                    f.1 = b"gzip, chunked".to_vec();
+                }
+            }
             // server behaviours towards Expect
             let mut scripts: Vec<(Vec<crate::exch::ServerMsg>, bool)> = Vec::new();
             if expect {
